@@ -11,4 +11,4 @@ def components(ctx):
 
 def check(ctx):
     return vlib.standard_check(ctx, MODULES, components(ctx), assumptions=H.ASSUMPTIONS, trusted=H.TRUSTED,
-                               explanation='Lean theorems cover the model of every handler for all byte streams, segmentations and limits (no abort, termination, one callback, range facts). Leak-/fd-freedom and cancellation are not expressible in the functional model: they are observed on the real code in every generated case (allocator/fd accounting, LeakSanitizer, cancel after the k-th wait).')
+                               explanation='Lean theorems cover the model of every handler for all byte streams, segmentations and limits (no abort, termination, one callback, range facts) and, in the resource model Model/HttpRes.lean (heap blocks by kind, pointer fields of the cookie, connect/read-wait/write registrations, descriptors; http_request_cancel and a failing write at any point), for all environments: nothing leaks or is freed twice, no registration survives, no callback after cancel, exactly one callback otherwise, the body buffer goes to the caller iff the body is non-empty. The tie runs the real code against that model: callback, bytes sent, live blocks / descriptors / registrations at the end (L1) and wait lengths plus own/total/registration counts at every netbuf_read_wait (L2), with cancellation right after every wait and after every recv() of small responses and at generated points elsewhere. Allocation failure (the die paths) is property C14.')
